@@ -190,7 +190,7 @@ fn op_from(v: &Value) -> Option<Op> {
     None
 }
 
-fn hist_json(h: &History) -> Value {
+pub fn hist_json(h: &History) -> Value {
     json!({"kind": "history", "input_hex": hex(&h.input), "input_preview": short_bytes(&h.input), "ops": h.ops.iter().map(op_json).collect::<Vec<_>>()})
 }
 
